@@ -152,3 +152,23 @@ def apply(repo, report):
 
 
 _extend("C14", [("c11", "r2_quality_base", ("C14.X",), ALL, "the expected-error value is the sum of 10^(-Q/10) with Q decoded by the configured quality base")])
+
+# fourth round of seeded changes: constructs that turned out to be necessary conditions of further properties
+_extend("C02", [("c09", "r1_best", (), _has("_regroup_into_indexed_adapters", "adapter list"), "every adapter given is searched (regrouping for the index must not lose one)"),
+                ("c01", "r1_min_overlap_clamp", (), ALL, "an adapter shorter than the requested minimum overlap can still be found (the overlap in force is min(requested, length))"),
+                ("c01", "r1_flags", (), _has("aligner flags"), "anchored adapters use the indel-free comparer only when indels are off"),
+                ("c01", "r5_first_column", (), ALL, "skipped adapter bases at the read start are charged as deletions unless the adapter's start is free")])
+_extend("C04", [("c15", "r1_writers", (), ALL, "reads counted as written to an untrimmed/demultiplexed file go to the file the user named for that mate"),
+                ("c12", "r4_sweep", (), lambda o: "files.py" in (o.loc or "") or "steps.py" in (o.loc or ""), "a failed write or close of an output file is not swallowed: reads reported as written were stored"),
+                ("c06", "r4_statistics_slots", (), ALL, "the totals of both reads are merged from every worker")])
+_extend("C05", [("c11_predicates", "r2_criteria", (), _has("CasavaFiltered"), "the criterion is evaluated on each mate's own header (R2 carries '2:Y:')")])
+_extend("C08", [("c01", "r1_anchored_full_length", (), ALL, "the one-by-one search of an anchored adapter requires the whole adapter, as the index does")])
+_extend("C09", [("c01", "r5_first_column", (), ALL, "alignment scores decide which adapter wins: skipped adapter bases must cost what the documentation says")])
+_extend("C11", [("c14", "r1_r2_header", (), ALL, "--max-ee / --max-aer compare the sum of 10^(-Q/10); an invalid character (and only that) yields the error sentinel")])
+_extend("C12", [("c19", "r2_fasta", (), _has("open_record_writer"), "the output format is never silently switched to FASTA: a FASTQ-named output for input without qualities is refused by dnaio (the visible failure)")])
+_extend("C14", [("builder_rules", "c10", ("quick",), lambda o: o.rule == "C10.R2" and "max-expected-errors" in o.construct, "--max-ee 0 still installs the filter (presence tested with 'is None')")])
+_extend("C16", [("c09", "r4_linked_totals", (), ALL, "the orientation is chosen by the sum of match scores; a linked match scores the sum of its parts")])
+_extend("C17", [("c08", "r3_bestof", (), ALL, "the error count and coordinates printed are those stored for the match (index look-ups with N included)"),
+                ("c13", "r3_scans", (), _has("5' scan", "cutoff per end"), "with a 3'-only cutoff nothing is removed from the 5' end, so printed coordinates refer to the input read")])
+_extend("C18", [("c01", "r1_flags", (), _has("aligner flags"), "'^ADAPTER' / 'ADAPTER$' with indels allowed is searched with indels")])
+_extend("C20", [("c06", "r4_statistics_slots", (), ALL, "per-adapter statistics of both reads are merged from every worker")])
